@@ -28,8 +28,9 @@ margin.  This is only sound if the library's float arithmetic also lands exactly
 on the tie, which is guaranteed when every number involved is a small dyadic
 rational (then sums, differences, mid-points are computed without rounding and
 a correctly rounded quotient that is representable is exact).  Therefore ties
-are *trusted* only when all inputs lie on the lattice ``k / 2**20, |x| < 2**20``
-(see :func:`on_lattice`); an exact tie on any other input sets the margin to 0.
+are *trusted* only when all numbers entering that comparison (times, and the
+threshold if there is one) lie on the lattice ``k / 2**20, |x| < 2**20`` (see
+:func:`on_lattice`); an exact tie on any other input sets the margin to 0.
 """
 
 from fractions import Fraction
@@ -94,12 +95,13 @@ class Margin(object):
 
     def __init__(self, trusted_ties):
         self.value = INF
-        self.trusted = bool(trusted_ties)
+        self.trusted = bool(trusted_ties)      # default trust for exact ties
 
     def see(self, d, t, trusted=None):
-        """Record the comparison of d against threshold t."""
+        """Record the comparison of d against threshold t.  ``trusted`` (if not
+        None) overrides the default trust for an exact tie."""
         if d == t:
-            ok = self.trusted if trusted is None else (self.trusted and trusted)
+            ok = self.trusted if trusted is None else trusted
             if not ok:
                 self.value = 0.0
             return
@@ -178,7 +180,8 @@ def count_hits(ref, est, window, mg):
         row = []
         for j, e in enumerate(est):
             d = abs(r - e)
-            mg.see(d, window)
+            # window == 0 with identical times is an exact tie for any floats
+            mg.see(d, window, trusted=True if window == 0 else None)
             if d <= window:
                 row.append(j)
         adj.append(row)
@@ -244,10 +247,11 @@ def _boundaries(intervals, mg):
     return sorted(ks)
 
 
-def _segment_prepare(reference_intervals, estimated_intervals, trim, extra=()):
+def _segment_prepare(reference_intervals, estimated_intervals, trim):
     ref_t = [fr(t) for row in _rows(reference_intervals) for t in row]
     est_t = [fr(t) for row in _rows(estimated_intervals) for t in row]
-    mg = Margin(on_lattice(ref_t, est_t, list(extra)))
+    # rounding ties (t*1e5 exactly on k + 1/2) are reproducible for dyadic t
+    mg = Margin(on_lattice(ref_t, est_t))
     rb = _boundaries(reference_intervals, mg)
     eb = _boundaries(estimated_intervals, mg)
     if trim:
@@ -272,8 +276,7 @@ def detection(reference_intervals, estimated_intervals, window=0.5, beta=1.0,
     "If we have no boundaries, we get no score."  Return order documented as
     precision, recall, f_measure."""
     w = fr(window)
-    rb, eb, mg = _segment_prepare(reference_intervals, estimated_intervals,
-                                  trim, extra=[w])
+    rb, eb, mg = _segment_prepare(reference_intervals, estimated_intervals, trim)
     if not rb or not eb:
         return (0.0, 0.0, 0.0), mg.value
     ref = [Fraction(k, _Q) for k in rb]
@@ -281,7 +284,8 @@ def detection(reference_intervals, estimated_intervals, window=0.5, beta=1.0,
     # The library holds the rounded boundaries as floats k/1e5, which are exact
     # only for dyadic values; a window tie between inexact boundaries is decided
     # by rounding noise there, so it is not trusted.
-    tie_ok = mg.trusted and all(float_exact(x) for x in ref + est)
+    tie_ok = (mg.trusted and on_lattice(w)
+              and all(float_exact(x) for x in ref + est))
     mg2 = Margin(tie_ok)
     hits = count_hits(ref, est, w, mg2)
     p, r, f = prf(hits, len(ref), len(est), fr(beta))
